@@ -108,6 +108,9 @@ type Method struct {
 	Doc      []string   `json:"doc,omitempty"`      // plain doc lines (without //)
 	DocAfter []string   `json:"docAfter,omitempty"` // plain doc lines after the notations
 	Trailing string     `json:"trailing,omitempty"` // trailing comment on the method line
+	// TogglesLast renders the toggle notations after the other notations (the effective options of a
+	// method do not depend on the order of its notation lines).
+	TogglesLast bool `json:"toggles_last,omitempty"`
 }
 
 // Iface is one converter interface.
@@ -233,15 +236,22 @@ func (m Method) MethodLine() string {
 
 // NotationLines lists all notation lines of the method in source order.
 func (m Method) NotationLines() []string {
-	out := m.Opts.Lines()
+	var out []string
+	if !m.TogglesLast {
+		out = m.Opts.Lines()
+	}
 	if m.Recv != "" {
 		out = append(out, ":recv "+m.Recv)
 	}
-	if m.Reverse {
-		out = append(out, ":reverse")
-	}
 	for _, n := range m.Notes {
 		out = append(out, n.Line())
+	}
+	if m.TogglesLast {
+		out = append(out, m.Opts.Lines()...)
+	}
+	if m.Reverse {
+		// after :style (":reverse" is validated against the style seen so far - documented: needs :style arg)
+		out = append(out, ":reverse")
 	}
 	return out
 }
@@ -317,6 +327,7 @@ func (p *Prog) Files() hx.Files {
 		{Name: "lib/v2/lib.go", Data: LibV2Src},
 		{Name: "a/model/model.go", Data: ModelASrc},
 		{Name: "b/model/model.go", Data: ModelBSrc},
+		{Name: "other/home/home.go", Data: OtherHomeSrc},
 	}
 	var ext, home strings.Builder
 	ext.WriteString(ExtSrc)
